@@ -8,7 +8,7 @@ CONSTANTS
   DevPollMultiLen = TRUE
   Part = "dgram"
   Feat = {}
-  Sizes = {0, 1, 3, 4}
+  Sizes = {0, 1, 4}
   Caps = {0, 1}
   SockBuf = 2
   MaxOff = 4
